@@ -498,3 +498,99 @@ def every_iteration_passes(f, header, through):
             if s in body and s not in through and s != header and s not in seen:
                 st.append(s)
     return True
+
+
+# --------------------------------------------------------------------------
+# boolean implication analysis: "local B can be true only if call C returned false"
+# --------------------------------------------------------------------------
+
+def implies_not_call(f, call_suffix, defs=None):
+    """Returns (safe, why): safe = set of bool locals L with the invariant  L == true  =>  some call to
+    `call_suffix` (evaluated earlier in the same loop iteration / function) returned false.
+    A local is safe if EVERY definition of it is one of: const false; Not(result of the call); a copy of a safe
+    local; BitAnd with a safe local; or an arbitrary value defined in a block that is reachable only through the
+    false edge of a branch on the call's result, or only through the true edge of a branch on a safe local."""
+    defs = defs or Defs(f)
+    results = set()
+    for bi, t in calls_to(f, call_suffix):
+        l = place_local(t["d"])
+        if l is not None:
+            results.add(l)
+
+    def copies_of(srcs):
+        out = set(srcs)
+        ch = True
+        while ch:
+            ch = False
+            for b in f.blocks:
+                for s in b["s"]:
+                    if s["r"] == "use" and not place_proj(s["d"]) and op_local(s["o"]) in out and isinstance(s["d"], int) and s["d"] not in out:
+                        # only single-definition temporaries
+                        if len(defs.stmts.get(s["d"], [])) + len(defs.calls.get(s["d"], [])) == 1:
+                            out.add(s["d"])
+                            ch = True
+        return out
+    res_all = copies_of(results)
+
+    def edge_guarded_blocks(switch_locals, keep_true):
+        """blocks reachable only through the (true if keep_true else false) edge of a switch on one of switch_locals"""
+        guarded = set()
+        for sb, b in enumerate(f.blocks):
+            t = b["t"]
+            if t["k"] != "switch" or op_local(t["d"]) not in switch_locals or t.get("v") != [0] or len(t["t"]) != 2:
+                continue
+            f_edge, t_edge = t["t"][0], t["t"][1]
+            want, other = (t_edge, f_edge) if keep_true else (f_edge, t_edge)
+            hdr = innermost_header(f, sb)
+            avoid = {hdr} if hdr is not None else set()
+            via_other = f.reachable_from(other, avoid=avoid) | {other}
+            via_want = f.reachable_from(want, avoid=avoid) | {want}
+            guarded |= (via_want - via_other)
+        return guarded
+
+    not_guard = edge_guarded_blocks(res_all, keep_true=False)
+    safe = set()
+    changed = True
+    n_bool = [l for l in range(len(f.mir["locals"])) if f.local_ty(l) == "bool"]
+    while changed:
+        changed = False
+        true_guard = edge_guarded_blocks(copies_of(safe), keep_true=True) if safe else set()
+        for l in n_bool:
+            if l in safe or l in res_all:
+                continue
+            ds = defs.stmts.get(l, [])
+            cs = defs.calls.get(l, [])
+            if not ds and not cs:
+                continue
+            ok = True
+            for bi, si, s, pj in ds:
+                if pj:
+                    ok = False
+                    break
+                if bi in not_guard or bi in true_guard:
+                    continue
+                if s["r"] == "use":
+                    o = s["o"]
+                    if "c" in o or "iv" in o:
+                        if o.get("iv") == 0 or str(o.get("c")) in ("false", "0"):
+                            continue
+                        ok = False
+                        break
+                    if op_local(o) in safe:
+                        continue
+                    ok = False
+                    break
+                if s["r"] == "unop" and s.get("op") == "Not" and op_local(s["o"]) in res_all:
+                    continue
+                if s["r"] == "binop" and s.get("op") == "BitAnd" and (op_local(s["a"]) in safe or op_local(s["b"]) in safe):
+                    continue
+                ok = False
+                break
+            for bi, t in cs:
+                if bi in not_guard or bi in true_guard:
+                    continue
+                ok = False
+            if ok:
+                safe.add(l)
+                changed = True
+    return safe, res_all
